@@ -257,6 +257,35 @@ impl Node {
         v.dedup();
         v
     }
+    /// a back-referenced group inside a quantified (other than {1}) term of fixed non-zero length
+    pub fn backref_to_group_in_fixed_loop(&self) -> bool {
+        let refs = self.backrefs();
+        if refs.is_empty() {
+            return false;
+        }
+        fn groups(n: &Node, out: &mut Vec<u32>) {
+            if let Node::Group(k, _) = n {
+                if *k != 0 {
+                    out.push(*k);
+                }
+            }
+            for c in n.children() {
+                groups(c, out);
+            }
+        }
+        self.any(&|n| match n {
+            Node::Rep { body, min, max, .. } if !(*min == 1 && *max == Some(1)) => {
+                if body.fixed_len().map_or(false, |l| l > 0) {
+                    let mut g = vec![];
+                    groups(body, &mut g);
+                    g.iter().any(|x| refs.contains(x))
+                } else {
+                    false
+                }
+            }
+            _ => false,
+        })
+    }
     pub fn backrefs(&self) -> Vec<u32> {
         let mut v = vec![];
         fn walk(n: &Node, v: &mut Vec<u32>) {
